@@ -4,7 +4,12 @@ use libfuzzer_sys::fuzz_target;
 use omaha_verif::{engine::CaseCtx, props::c01, tape::Tape};
 
 fuzz_target!(|data: &[u8]| {
-    let mut t = Tape::from_bytes(data);
+    // mode 0 (sampled mutations) or mode 2 (ETag text differential); the exhaustive bit-flip mode is left to the
+    // harness (about a thousand signature verifications per case is too slow under sanitizers)
+    let mode = if data.first().map(|b| b & 1 == 1).unwrap_or(false) { 0 } else { 2 };
+    let mut words = vec![Tape::encode_choice(mode, 3)];
+    words.extend_from_slice(Tape::from_bytes(data.get(1..).unwrap_or(&[])).data());
+    let mut t = Tape::new(words);
     let ctx = CaseCtx { want_sample: false, replay: false };
     if let Err(f) = c01::case(&mut t, &ctx) {
         panic!("VIOLATION-CANDIDATE property=C01 {}: {}", f.signature, f.message);
